@@ -18,7 +18,7 @@ def get (k : κ) : List (κ × β) → Option β
   | (k', v) :: r => if k' = k then some v else get k r
 
 def del (k : κ) (l : List (κ × β)) : List (κ × β) :=
-  l.filter (fun kv => decide (kv.1 ≠ k))
+  l.filter (fun kv => !decide (kv.1 = k))
 
 def set (k : κ) (v : β) (l : List (κ × β)) : List (κ × β) :=
   (k, v) :: del k l
